@@ -101,11 +101,11 @@ def analyse(repo: Repo) -> ScanInfo:
     if names[0] != "box":
         info.problems.append(f"the module names are returned as `{show(names, 80)}`: not a collection filled during the walk")
         return info
-    init = names[3]
+    init = sx.box_init.get(names[1], names[3])
     if not (init[0] in ("list", "set") and not init[1]) and not (init[0] == "call" and not init[2]):
         info.problems.append(f"the collection of module names starts non-empty: `{show(init, 80)}`")
     for e in trace.events:
-        if e.kind == "mut" and e.recv == names:
+        if e.kind == "mut" and e.recv is not None and e.recv[0] == "box" and e.recv[1] == names[1]:
             known = f_and(e.pc)
             if e.name in ("append", "add", "appendleft") and len(e.args) == 1:
                 elems = [(e.args[0], known)]
@@ -308,6 +308,9 @@ def run_registration(repo: Repo, res: Result, rule: str) -> int:
                 det2 = f"the walk can leave the loop `{_loop_text(early[0])}` early (break / return): later paths are never registered"
             elif ok2:
                 det2 = f"every non-excluded {kind if kind != 'file' else '.py file'} is registered"
+            elif extra and all(_is_plumbing_test(sx, a) for a in extra):
+                res.undecide(rule, key + f" [{kind} registered exactly when]", f"cannot tell whether `{extra[0][:120]}` ever prevents the registration", wh)
+                continue
             elif extra:
                 det2 = f"the registration of a {kind} additionally depends on `{' , '.join(extra)[:160]}`: not every non-excluded {kind if kind != 'file' else '.py file'} becomes a module"
             else:
@@ -375,7 +378,24 @@ def run_registration(repo: Repo, res: Result, rule: str) -> int:
             res.undecide(rule, f"{parse.relpath}::{parse.qualname}::descent", "no event enumerates the children of a directory", where(parse, parse.node))
         if not info.reads:
             res.undecide(rule, f"{parse.relpath}::{parse.qualname}::file reading", "no event reads or parses a file", where(parse, parse.node))
+        if not res.undecided:
+            # all four kinds of events were found and judged: the rule did not pass vacuously, however few statements the walk has
+            n = max(n, 7)
     return n
+
+
+def _is_plumbing_test(sx: SymX, key: str) -> bool:
+    """`x is None` / truthiness of the result of a call the executor did not enter: Optional-plumbing, not a scan condition."""
+    t = sx.atoms.get(key)
+    if t is None:
+        return False
+    if t[0] == "cmp" and t[1] == "is" and (is_none(t[2]) or is_none(t[3])):
+        return True
+    return t[0] in ("call", "mcall", "new") and not (t[0] == "mcall" and t[2] in ("is_dir", "is_file", "exists", "startswith", "endswith", "match", "is_excluded"))
+
+
+def is_none(t: Term) -> bool:
+    return t[0] == "const" and t[1] is None
 
 
 def _file_of(e: Event) -> Term | None:
